@@ -477,4 +477,71 @@ theorem reformatSmallAfa_eq_reference (o : ReformatOpts) (hdr : Line) (r0 : Row)
   rw [afaBody_rows o (r0 :: rs) 0 none [] rest hwf ⟨fun _ => hdist, fun h => absurd rfl h⟩, afaOut_eq_reference]
   simp [renderLines, reformatAfa]
 
+/-! ## esl-reformat --small, Pfam -> Pfam: names and spacing untouched, residues converted pointwise -/
+
+theorem takeWhile_spaces' (k : Nat) (t : Line) (ht : ∀ c, t.head? = some c → isSpTab' c = false) :
+    (List.replicate k ' ' ++ t).takeWhile isSpTab' = List.replicate k ' ' := by
+  induction k with
+  | zero =>
+    cases t with
+    | nil => rfl
+    | cons a as =>
+      have : isSpTab' a = false := ht a (by simp)
+      simp [List.takeWhile, this]
+  | succ k ih =>
+    rw [List.replicate_succ, List.cons_append, List.takeWhile_cons]
+    simp [ih, isSpTab']
+
+/-- the output line of a row: `%.*s%*s%s` = name, the original run of blanks, the converted text -/
+def Row.pfamOut (o : ReformatOpts) (r : Row) : Line := r.name ++ List.replicate (r.gap + 1) ' ' ++ r.text.map (convChar o true)
+
+theorem pfamBody_rows (o : ReformatOpts) (rows : List Row) (ea : Option Nat) (nread : Nat) (first : Option Line) (acc rest : List Line)
+    (hwf : ∀ r ∈ rows, r.WF) (hok : namesOk nread first rows)
+    (hlen : ∀ r ∈ rows, (ea = none ∨ ea = some r.text.length) ∧ ∀ r' ∈ rows, r'.text.length = r.text.length) :
+    reformatSmallPfamBody o ea first nread (rows.map Row.line ++ "//".toList :: rest) acc
+      = some (acc.reverse ++ rows.map (Row.pfamOut o) ++ ["//".toList], rest) := by
+  induction rows generalizing ea nread first acc with
+  | nil =>
+    simp [reformatSmallPfamBody, isSpTab', startsWith, List.isPrefixOf, List.dropWhile]
+  | cons r rs ih =>
+    have h := hwf r (by simp)
+    obtain ⟨a, tl, hline, hsp, hh, hs⟩ := row_line_head r h
+    have hp : r.line.dropWhile isSpTab' = r.line := by rw [hline]; simp [List.dropWhile, hsp]
+    have e0 : r.line.isEmpty = false := by rw [hline]; rfl
+    have e1 : (r.line.head? = some '#') = False := by rw [hline]; simp [hh]
+    have e2 : startsWith r.line "//" = false := by rw [hline]; simp [startsWith, List.isPrefixOf, Ne.symm hs]
+    have ht1 := mtok_word r.name r.text r.gap h.name_ne h.name_tok
+    have ht2 := mtok_last (r.gap + 1) r.text h.text_ne h.text_tok
+    have hthead : ∀ c, r.text.head? = some c → isSpTab' c = false := by
+      intro c hc
+      cases ht : r.text with
+      | nil => simp [ht] at hc
+      | cons b bs =>
+        simp [ht] at hc; rw [← hc]
+        have := notSpTab_true h.text_tok b (by simp [ht]); simpa using this
+    have htw := takeWhile_spaces' (r.gap + 1) r.text hthead
+    have hfirst : (nread != 0 && decide (first = some r.name)) = false := by
+      by_cases h0 : nread = 0
+      · simp [h0]
+      · have := hok.2 h0 r (by simp); simp [this]
+    have hea : (ea.isSome && ea != some r.text.length) = false := by
+      rcases (hlen r (by simp)).1 with e | e <;> simp [e]
+    have hok' : namesOk (nread + 1) (if nread = 0 then some r.name else first) rs := by
+      refine ⟨fun e => by omega, fun _ x hx => ?_⟩
+      by_cases h0 : nread = 0
+      · have := hok.1 h0
+        simp only [h0, ↓reduceIte]
+        intro e; injection e with e
+        exact this x hx e.symm
+      · simp only [h0, ↓reduceIte]
+        exact hok.2 h0 x (by simp [hx])
+    simp only [List.map_cons, List.cons_append]
+    rw [reformatSmallPfamBody]
+    simp only [hp, e0, e1, e2, Bool.false_eq_true, ↓reduceIte]
+    rw [show r.line = r.name ++ List.replicate (r.gap + 1) ' ' ++ r.text from rfl, ht1]
+    simp only [ht2, htw, hea, hfirst, Bool.false_eq_true, ↓reduceIte]
+    rw [ih (some r.text.length) (nread + 1) _ _ (fun x hx => hwf x (by simp [hx])) hok'
+      (fun x hx => ⟨Or.inr (by rw [(hlen r (by simp)).2 x (by simp [hx])]), fun y hy => (hlen x (by simp [hx])).2 y (by simp [hy])⟩)]
+    simp [Row.pfamOut, List.length_replicate, Nat.sub_self, List.append_assoc]
+
 end EaselModel.Miniapps.Small
